@@ -184,3 +184,240 @@ def blob_upload(w):
     received, same = _transfer(size, "up", 1024, "Also")
     return {"reproduced": not (received and same),
             "detail": "upload of %d bytes through a server connection (threshold 2048, reads of 1024): %s" % (size, "arrived intact" if (received and same) else "lost: junk recovery destroyed the partial message")}
+
+
+# ---------------------------------------------------------------------------------------------------
+# C01: random driver definitions x random histories; the client view must equal the device's published view
+# ---------------------------------------------------------------------------------------------------
+def _gen_driver(rnd, idx, depth):
+    """a Driver subclass chain of the given depth with 1-3 groups; returns (class, device name)"""
+    from indi.device import Driver, properties
+    kinds = ["text", "number", "switch", "light", "blob"]
+    fmts = ["%f", "%.2f", "%d", "%8.3f", "%.3m", "%.5m", "%.6m", "%.8m", "%.9m", "%+.1f"]
+
+    def vec(tag):
+        k = rnd.choice(kinds)
+        n = rnd.randint(1, 3)
+        name = "%s_%s" % (k.upper(), tag)
+        en = rnd.random() > 0.2
+        if k == "text":
+            return properties.TextVector(name, enabled=en, label=rnd.choice([None, "lbl " + tag]),
+                                         elements={"k%d" % i: properties.Text("E%d" % i, default=rnd.choice(["", "x", "a<&>\"b'", "\xe9"]), enabled=rnd.random() > 0.15) for i in range(n)})
+        if k == "number":
+            return properties.NumberVector(name, enabled=en, elements={"k%d" % i: properties.Number("E%d" % i, default=rnd.choice([0, 1.5, -0.25, 12.999999, -3, 1e6]), format=rnd.choice(fmts)) for i in range(n)})
+        if k == "switch":
+            rule = rnd.choice(["OneOfMany", "AtMostOne", "AnyOfMany"])
+            return properties.SwitchVector(name, enabled=en, rule=rule, default_on="E0" if rule == "OneOfMany" else rnd.choice([None, "E0"]),
+                                           elements={"k%d" % i: properties.Switch("E%d" % i) for i in range(n)})
+        if k == "light":
+            return properties.LightVector(name, enabled=en, elements={"k%d" % i: properties.Light("E%d" % i, default=rnd.choice(["Idle", "Ok", "Busy", "Alert"])) for i in range(n)})
+        return properties.BLOBVector(name, enabled=en, elements={"k%d" % i: properties.BLOB("E%d" % i) for i in range(n)})
+    cls = Driver
+    for lvl in range(depth):
+        dct = {"name": "DEV%d" % idx}
+        for g in range(rnd.randint(1, 2) if lvl else rnd.randint(1, 3)):
+            gname = "G%d_%d" % (lvl, g)
+            dct["g%d_%d" % (lvl, g)] = properties.Group(gname, enabled=rnd.random() > 0.2,
+                                                        vectors={"v%d" % j: vec("%d%d%d" % (lvl, g, j)) for j in range(rnd.randint(1, 2))})
+        if lvl and rnd.random() < 0.3:          # override an inherited group attribute
+            dct["g0_0"] = properties.Group("G0_0x", vectors={"v0": vec("ovr%d" % lvl)})
+        cls = type(cls)("Dev%d_%d" % (idx, lvl), (cls,), dct)
+    return cls, "DEV%d" % idx
+
+
+def published_view(d):
+    """what a mirror must show for device d (from the statement): its currently enabled properties with state, label, group and
+    the enabled elements' values as rendered on the wire"""
+    from indi.device.values import num_to_str
+    out = {}
+    for v in d._vectors.values():
+        if not v.enabled:
+            continue
+        els = {}
+        for e in v._elements.values():
+            if not e.enabled:
+                continue
+            x = e._value
+            if hasattr(x, "binary"):
+                x = ("BLOB", x.binary, x.format)
+            elif v.__class__.__name__ == "NumberVector":
+                x = num_to_str(x, e._definition.format)
+            els[e.name] = x
+        out[v.name] = {"kind": v.__class__.__name__, "state": v._state, "label": v._definition.label, "group": v._group.name, "elements": els}
+    return out
+
+
+def client_view(c, dev):
+    out = {}
+    if dev not in c.devices:
+        return out
+    for vn, vec in c.devices[dev].vectors.items():
+        els = {}
+        for en, el in vec.elements.items():
+            x = el.value
+            els[en] = ("BLOB", x.binary, x.format) if hasattr(x, "binary") else x
+        out[vn] = {"kind": vec.__class__.__name__, "state": vec.state, "label": vec.label, "group": vec.group, "elements": els}
+    return out
+
+
+def _norm(view, blobs, other=None):
+    """other: the view this one is compared with (a BLOB element a client shows as empty has simply not received a payload since
+    the property was last defined to it -- definitions carry no payload -- so it is compared as empty on both sides)"""
+    out = {}
+    for vn, v in view.items():
+        els = dict(v["elements"])
+        if v["kind"] == "BLOBVector" and not blobs:
+            # a client that did not enable BLOBs receives no setBLOBVector at all (C05): neither payloads nor the state they carry
+            els = {k: None for k in els}
+            v = dict(v, state=None)
+        else:
+            els = {k: (("BLOB", b"", "") if (v["kind"] == "BLOBVector" and x is None) else x) for k, x in els.items()}
+            els = {k: (None if x == ("BLOB", b"", "") else x) for k, x in els.items()}
+        if v["kind"] == "BLOBVector" and other is not None and vn in other:
+            els = {k: (None if other[vn]["elements"].get(k, 0) is None else x) for k, x in els.items()}
+        # the wire does not distinguish an empty text from no text
+        els = {k: (None if x == "" else x) for k, x in els.items()}
+        out[vn] = dict(v, elements=els, label=v["label"] or None)
+    return out
+
+
+def _history(seed, steps, chunk):
+    import random
+    import indi
+    from indi.routing import Router
+    from indi.device import values
+    rnd = random.Random(seed)
+    r = Router()
+    devs = []
+    for i in range(rnd.randint(1, 3)):
+        cls, name = _gen_driver(rnd, i, rnd.randint(1, 3))
+        devs.append(cls(router=r))
+    WC = wire_pair(chunk, blob_threshold_none=True)
+    net = WC(r)
+    snoop = devs[0].snooping_client if len(devs) > 1 else None
+    clients = [("network", net, True)] + ([("snooping", snoop, False)] if snoop else [])
+    log = []
+    net.send_message(indi.message.GetProperties(version="1.7"))
+    for d in devs:
+        net.send_message(indi.message.EnableBLOB(device=d.name, value="Also"))
+    if snoop:
+        for d in devs[1:]:
+            devs[0].snoop_device(d.name)
+    states = ["Idle", "Ok", "Busy", "Alert"]
+
+    def compare(when):
+        for cname, c, blobs in clients:
+            for d in devs:
+                if cname == "snooping" and d is devs[0]:
+                    continue
+                cv = client_view(c, d.name)
+                want, got = _norm(published_view(d), blobs, cv), _norm(cv, blobs)
+                if want != got:
+                    diff = [k for k in set(want) | set(got) if want.get(k) != got.get(k)]
+                    k = sorted(diff)[0]
+                    short = lambda x: {a: (("BLOB", len(b[1]), b[2]) if isinstance(b, tuple) else b) for a, b in x["elements"].items()} if x else x
+                    want = {k: dict(want[k], elements=short(want[k]))} if k in want else {}
+                    got = {k: dict(got[k], elements=short(got[k]))} if k in got else {}
+                    return "%s client, device %s, %s: property %s: device has %r, client shows %r; history: %s" % (
+                        cname, d.name, when, k, want.get(k), got.get(k), "; ".join(log[-6:]))
+        return None
+    p = compare("after the handshake")
+    if p:
+        return p
+    for step in range(steps):
+        d = rnd.choice(devs)
+        v = rnd.choice(list(d._vectors.values()))
+        e = rnd.choice(list(v._elements.values()))
+        op = rnd.choice(["assign", "assign", "set_value", "state", "vec_enabled", "group_enabled", "client_write", "client_write", "handshake", "bool", "selected"])
+        kindn = v.__class__.__name__
+        try:
+            if op in ("assign", "set_value"):
+                if kindn == "TextVector":
+                    val = rnd.choice(["", "t%d" % step, "<x a='1'/>&amp;", "\xe9\xff"])
+                elif kindn == "NumberVector":
+                    val = rnd.choice([0, -0.25, 1.999999, 59.5 / 60, -1.5, step * 1.25, 7])
+                elif kindn == "SwitchVector":
+                    val = rnd.choice(["On", "Off"])
+                elif kindn == "LightVector":
+                    val = rnd.choice(states)
+                else:
+                    val = values.BLOB(bytes(rnd.randrange(256) for _ in range(rnd.choice([0, 1, 300, 1500]))), rnd.choice([".fits", "", ".x y"]))
+                log.append("%s.%s.%s %s %r" % (d.name, v.name, e.name, op, val if kindn != "BLOBVector" else "<blob %d>" % val.size))
+                if op == "assign":
+                    e.value = val
+                else:
+                    e.set_value(val)
+            elif op == "bool" and kindn == "SwitchVector":
+                b = rnd.random() > 0.5
+                log.append("%s.%s.%s bool_value=%r" % (d.name, v.name, e.name, b))
+                e.bool_value = b
+            elif op == "selected" and kindn == "SwitchVector":
+                log.append("%s.%s selected_value=%s" % (d.name, v.name, e.name))
+                try:
+                    v.selected_value = e.name
+                except AttributeError:
+                    pass
+            elif op == "state":
+                s = rnd.choice(states)
+                log.append("%s.%s state_=%s" % (d.name, v.name, s))
+                v.state_ = s
+            elif op == "vec_enabled":
+                b = rnd.random() > 0.4
+                log.append("%s.%s enabled=%r" % (d.name, v.name, b))
+                v.enabled = b
+            elif op == "group_enabled":
+                g = v._group
+                b = rnd.random() > 0.4
+                log.append("%s group %s enabled=%r" % (d.name, g.name, b))
+                g.enabled = b
+            elif op == "handshake":
+                log.append("handshake")
+                net.send_message(indi.message.GetProperties(version="1.7"))
+            elif op == "client_write":
+                cv = net.devices.get(d.name) and net.devices[d.name].vectors.get(v.name)
+                if cv is None or kindn in ("LightVector",) or not cv.elements:
+                    continue
+                en = rnd.choice(list(cv.elements))
+                if kindn == "TextVector":
+                    val = rnd.choice(["w%d" % step, "a b", "&"])
+                elif kindn == "NumberVector":
+                    val = rnd.choice(["1", "-2.5", "12:30", "-0:15:30", "+7", "3;30"])
+                elif kindn == "SwitchVector":
+                    val = rnd.choice(["On", "Off"])
+                else:
+                    val = values.BLOB(bytes(rnd.randrange(256) for _ in range(rnd.choice([0, 5, 700]))), ".up")
+                log.append("client writes %s.%s.%s=%r" % (d.name, v.name, en, val if kindn != "BLOBVector" else "<blob>"))
+                cv[en].value = val
+                cv.submit()
+        except (ValueError, AssertionError) as ex:
+            log.append("  (rejected: %s)" % type(ex).__name__)
+        p = compare("after step %d" % step)
+        if p:
+            return p
+    return None
+
+
+@kind("converge.history")
+def converge_history(w):
+    """Bounded stand-in for C01 (labelled bounded): random driver definitions (1-3 devices, 1-3 groups, all vector kinds and switch rules,
+    printf and sexagesimal formats, disabled groups / vectors / elements, inheritance depth <= 3 with overriding) x random histories of
+    driver-side and client-side operations; a network client behind the real serializer and framing buffers (fragmentation 1024 / 7 / 1)
+    and an in-process snooping client; after every step the client views must equal the devices' published views."""
+    n = w.get("n", 150)
+    steps = w.get("steps", 25)
+    probs, cases = [], 0
+    for i in range(n):
+        for chunk in ((1024, 7) if i % 5 else (1,)):
+            cases += 1
+            try:
+                p = _history(w.get("seed", 0) * 100003 + i, steps, chunk)
+            except Exception as e:
+                import traceback
+                p = "history %d raised %r: %s" % (i, e, traceback.format_exc()[-600:])
+            if p:
+                probs.append("seed %d chunk %d: %s" % (i, chunk, p))
+                break
+        if len(probs) >= 3:
+            break
+    return {"cases": cases, "reproduced": bool(probs), "detail": "; ".join(probs[:2]) or "client views equal the devices' published views after every step",
+            "failures": [{"detail": p, "reproduced": True, "witness": {"replay_kind": "converge.history"}} for p in probs[:3]]}
